@@ -69,6 +69,8 @@ static void bs_harness_init(void)
   gq = bs_g1; gj = bs_g2; gk = bs_g3; gi = bs_g4; gw = bs_g5; gr = bs_g6; bs_veq_w = bs_g7;
   T bs_u, bs_x;
   gu = bs_u; gx = bs_x;
+  struct bs_sum_t bs_sums;
+  BS_SUMS = bs_sums;
   bs_exc = 0;
 }
 #endif
